@@ -6,7 +6,7 @@ import subprocess
 from .. import clirun, common
 from . import base
 
-OPS = ["G:A", "R:C:pf", "R:A:pf", "R:A:an", "R:C:df", "F:A:1", "D", "X", "R:C:sf", "R:C:bn", "F:E:1:N", "R:E:pf", "R:E:bN", "R:A:bc", "R:A:ac",
+OPS = ["G:A", "R:C:pf", "R:A:pf", "R:A:an", "R:C:df", "F:A:1", "D", "X", "R:C:sf", "R:C:bn", "F:E:1:N", "R:E:pf", "R:E:bN", "R:A:bc", "R:A:ac", "R:Ar:pf",
        "G:B", "R:B:df", "R:B:bn", "F:B:0", "R:A:df", "R:B:pf", "G:E", "R:E:dN"]
 
 
@@ -30,7 +30,7 @@ def run_hist(h):
 def run(chk, build):
     tier = chk.tier
     proofs_ok = base.proof_obligations(chk, build, ["Props/C14.v"], ["Globals"])
-    ops = OPS[:15] if tier == "quick" else OPS
+    ops = OPS[:16] if tier == "quick" else OPS
     maxlen = 3 if tier == "quick" else 4
     fresh = dict(clirun.parallel(baseline, ops))
     hists = [h for n in range(1, min(maxlen, 3) + 1) for h in itertools.product(ops, repeat=n)]
